@@ -197,7 +197,12 @@ def jobs(tier, seed):
         common.env_setup()
         E.worker_init()
     ps = [(), (0x66,)] if tier == 'quick' else [(), (0x66,), (0x67,), (0x66, 0x67)]
-    return [('lift', ej, tier) for ej in E.make_jobs(tier, seed, prefix_sets=ps, sib='min' if tier == 'quick' else 'reps', per_signature=False)]
+    out = [('lift', ej, tier) for ej in E.make_jobs(tier, seed, prefix_sets=ps, sib='min' if tier == 'quick' else 'reps', per_signature=False)]
+    if tier == 'quick':
+        # 16-bit address size: every row in the thinnest ModRM slice (pointer registers become 16-bit slices: other widths everywhere)
+        out += [('lift', ej, tier) for ej in E.make_jobs(tier, seed, prefix_sets=[(0x67,)], sib='one', per_signature=False)]
+        out += [('lift', ej, tier) for ej in E.make_jobs(tier, seed, prefix_sets=[(0x66, 0x67)], sib='one', per_signature=True)]
+    return out
 
 
 def run_job(job):
